@@ -28,7 +28,7 @@ theorem codec_cases (hP : P.Lawful) (d : Desc) (hd : d.wf = true) (v : PyVal P)
   | str s =>
     cases kind <;> simp [valid] at hv
     · exact codec_string a w s hv
-    · exact codec_html hP a w s hv
+    · exact codec_html hP a w s hv.1 (by intro hx; simpa [hx] using hv.2)
     · rename_i e n
       simp [Desc.wf] at hd
       exact codec_enum_str a w e n s hd.1 (by simpa using hv)
